@@ -121,8 +121,20 @@ def unprovedSites : List Gen.C18Sites.Site :=
   coreSites.filter (fun s => !(provedSiteKeys.contains s.key)) ++
   excludedSites.filter (fun s => !((reviewedExcludedSites.map (·.1)).contains s.key))
 
+/-- verification hook code: files built only with the tag `verif` (not part of a normal build).
+    `cmd/export_verif.go` exports two functions to the harness; `tree/yield_verif.go` is the scheduling
+    point `VerifYield` (an EMPTY function without the tag: tree/yield_noverif.go), whose call statements
+    the extractor drops from every fingerprint. -/
+def reviewedHookFiles : List String := ["cmd/export_verif.go", "tree/yield_verif.go"]
+
+/-- the sources found in hook files (scope "hook"): allowed there and only there -/
+def reviewedHookSources : List (String × String) := [
+  ("env:tree/yield_verif.go:init:54e70b8806f5#1", "GOTREE_VERIF_YIELD read once at start-up: chooses between Gosched and a short sleep at the scheduling points; never reaches a result")]
+
+def hookSources : List Gen.C18Sites.Site := Gen.C18Sites.sources.filter (·.scope == "hook")
+
 def unreviewedSources : List Gen.C18Sites.Site :=
-  Gen.C18Sites.sources.filter (fun s => !((reviewedSources.map (·.1)).contains s.key))
+  Gen.C18Sites.sources.filter (fun s => s.scope != "hook" && !((reviewedSources.map (·.1)).contains s.key))
 
 def staleSources : List String :=
   (reviewedSources.map (·.1)).filter (fun k => !((Gen.C18Sites.sources.map (·.key)).contains k))
